@@ -113,23 +113,45 @@ extern "C" void __asan_unpoison_memory_region(void const volatile *addr, size_t 
 // to 8 KiB is parked (poisoned meanwhile) and given to the next request of exactly that size, refilled with the 0xbe pattern
 // ASan gives fresh memory (so that "result unit never written" monitors see what they would see on a fresh block).
 struct NewPool {
-    enum { SLOTS = 127 };
+    enum { SLOTS = 127, BIG = 3, SMALL_MAX = 8192, BIG_MAX = 4 << 20 };
     void *ptr[SLOTS];
     size_t size[SLOTS];
-    uint64_t reused = 0;
+    void *bptr[BIG];
+    size_t bsize[BIG];
+    unsigned bnext;
+    uint64_t reused;
 };
 inline NewPool &new_pool() { static NewPool *p = static_cast<NewPool *>(calloc(1, sizeof(NewPool))); return *p; }
+inline void pool_unpoison(void *p, size_t n)
+{
+#ifdef VRT_ALLOC_ASAN
+    __asan_unpoison_memory_region(p, n);
+#else
+    (void)p; (void)n;
+#endif
+}
+inline void pool_poison(void *p, size_t n)
+{
+#ifdef VRT_ALLOC_ASAN
+    __asan_poison_memory_region(p, n);
+#else
+    (void)p; (void)n;
+#endif
+}
 inline void *pool_take(size_t size)
 {
-    if (!vrt::placement_here() || size == 0 || size > 8192) return nullptr;
+    if (!vrt::placement_here() || size == 0 || size > NewPool::BIG_MAX) return nullptr;
     NewPool &np = new_pool();
-    const size_t k = size % NewPool::SLOTS;
-    if (!np.ptr[k] || np.size[k] != size) return nullptr;
-    void *p = np.ptr[k];
-    np.ptr[k] = nullptr;
-#ifdef VRT_ALLOC_ASAN
-    __asan_unpoison_memory_region(p, size);
-#endif
+    void *p = nullptr;
+    if (size <= NewPool::SMALL_MAX) {
+        const size_t k = size % NewPool::SLOTS;
+        if (np.ptr[k] && np.size[k] == size) { p = np.ptr[k]; np.ptr[k] = nullptr; }
+    } else {
+        for (int i = 0; i < NewPool::BIG; ++i)
+            if (np.bptr[i] && np.bsize[i] == size) { p = np.bptr[i]; np.bptr[i] = nullptr; break; }
+    }
+    if (!p) return nullptr;
+    pool_unpoison(p, size);
     memset(p, 0xbe, size);
     ++np.reused;
     ++vrt::recycled_new_blocks();
@@ -137,20 +159,20 @@ inline void *pool_take(size_t size)
 }
 inline bool pool_park(void *p, size_t size)
 {
-    if (!vrt::placement_here() || size == 0 || size > 8192 || (vrt::placement_next() & 3) != 0) return false;
+    if (!vrt::placement_here() || size == 0 || size > NewPool::BIG_MAX || !vrt::placement_park_decision()) return false;
     NewPool &np = new_pool();
-    const size_t k = size % NewPool::SLOTS;
-    if (np.ptr[k]) {
-#ifdef VRT_ALLOC_ASAN
-        __asan_unpoison_memory_region(np.ptr[k], np.size[k]);
-#endif
-        free(np.ptr[k]);
+    if (size <= NewPool::SMALL_MAX) {
+        const size_t k = size % NewPool::SLOTS;
+        if (np.ptr[k]) { pool_unpoison(np.ptr[k], np.size[k]); free(np.ptr[k]); }
+        np.ptr[k] = p;
+        np.size[k] = size;
+    } else {
+        const unsigned k = np.bnext++ % NewPool::BIG;
+        if (np.bptr[k]) { pool_unpoison(np.bptr[k], np.bsize[k]); free(np.bptr[k]); }
+        np.bptr[k] = p;
+        np.bsize[k] = size;
     }
-    np.ptr[k] = p;
-    np.size[k] = size;
-#ifdef VRT_ALLOC_ASAN
-    __asan_poison_memory_region(p, size);
-#endif
+    pool_poison(p, size);
     return true;
 }
 
